@@ -108,8 +108,39 @@ func storeFor(kind string) storage.Store {
 	return cached[kind]
 }
 
+// largeTriples: enough rows (more than twice the number of processors) for the per-row fan-out of the planner
+func largeTriples() []string {
+	ts := append([]string{}, populatedTriples...)
+	for i := 0; i < 90; i++ {
+		ts = append(ts,
+			fmt.Sprintf(`/u<n%d> "p"@[] /u<n%d>`, i, (i+1)%90),
+			fmt.Sprintf(`/u<n%d> "w"@[] "%d"^^type:int64`, i, i%7),
+			fmt.Sprintf(`/u<n%d> "q"@[2020-01-01T00:00:0%dZ] "x%d"^^type:text`, i, i%6, i%5))
+	}
+	return ts
+}
+
 func newStore(kind string) storage.Store {
 	st := memory.NewStore()
+	if kind == "large" {
+		for _, name := range []string{"?a", "?b", "?c"} {
+			g, err := st.NewGraph(ctx, name)
+			must(err)
+			if name == "?c" {
+				continue
+			}
+			var ts []*triple.Triple
+			for i, s := range largeTriples() {
+				if name == "?b" && i > 40 {
+					break
+				}
+				t, err := triple.Parse(s, literal.DefaultBuilder())
+				must(err)
+				ts = append(ts, t)
+			}
+			must(g.AddTriples(ctx, ts))
+		}
+	}
 	if kind == "populated" {
 		for _, name := range []string{"?a", "?b", "?c"} {
 			g, err := st.NewGraph(ctx, name)
